@@ -17,6 +17,9 @@ import (
 type resultSet struct {
 	cols []*Column // column metadata (name + type)
 	rows [][]Value
+	// injected failure while the rows are streamed (see Fault.InRows)
+	failErr   error
+	failAfter int
 }
 
 type execResult struct {
@@ -148,7 +151,7 @@ func (c *conn) run(query string, args []Value) (*resultSet, *execResult, []Write
 	}
 	if m := reSavepoint.FindStringSubmatch(q); m != nil {
 		if c.tx != nil {
-			c.tx.savepoints = append(c.tx.savepoints, savepoint{normIdent(m[1]), len(c.tx.log)})
+			c.tx.savepoints = append(c.tx.savepoints, savepoint{normIdent(m[1]), len(c.tx.log), len(c.tx.locks)})
 		}
 		return nil, &execResult{}, nil, nil
 	}
@@ -159,10 +162,10 @@ func (c *conn) run(query string, args []Value) (*resultSet, *execResult, []Write
 				if c.tx.savepoints[i].name == name {
 					s.rollbackTo(c.tx, c.tx.savepoints[i].pos)
 					c.tx.savepoints = c.tx.savepoints[:i+1]
-					// InnoDB keeps the row locks taken after the savepoint except for rows it can prove
-					// untouched; releasing locks of rows no longer referenced by the undo log models the
-					// observable effect "ROLLBACK TO releases the locks of the rolled-back statements".
-					s.releaseUnreferencedLocks(c.tx)
+					// models the observable effect the AT client relies on: "ROLLBACK TO gives back the row locks
+					// of the rolled-back statements" — locks taken after the savepoint on rows the remaining
+					// undo log does not reference; a lock taken before the savepoint stays
+					s.releaseUnreferencedLocks(c.tx, c.tx.savepoints[i].nlocks)
 					return nil, &execResult{}, nil, nil
 				}
 			}
@@ -236,13 +239,16 @@ func (c *conn) run(query string, args []Value) (*resultSet, *execResult, []Write
 
 func normIdent(s string) string { return strings.ToLower(strings.Trim(strings.TrimSpace(s), "`")) }
 
-func (s *Server) releaseUnreferencedLocks(t *txn) {
+func (s *Server) releaseUnreferencedLocks(t *txn, from int) {
 	ref := map[*row]bool{}
 	for _, u := range t.log {
 		ref[u.r] = true
 	}
-	kept := t.locks[:0]
-	for _, r := range t.locks {
+	if from > len(t.locks) {
+		from = len(t.locks)
+	}
+	kept := t.locks[:from]
+	for _, r := range t.locks[from:] {
 		if ref[r] {
 			kept = append(kept, r)
 		} else if r.lockOwner == t {
